@@ -114,10 +114,11 @@ func (u *Unit) verifyFunc() {
 	if u.variant != nil {
 		st.Assume(u.evalSpecBool(env, u.variant.Expr))
 	} else {
-		// the base run covers the inputs outside every variant; each variant run proves the
-		// whole contract again under its assumption, for its own property (so a defect
-		// confined to degenerate shapes alarms C20 and not the general properties, and vice versa)
-		for _, v := range ct.Variants {
+		// the base run leaves out the inputs named by base-excludes (zero channel counts, which are
+		// outside the quantifier of the general properties); each variant run proves the whole
+		// contract again under its assumption, for its own property, so a defect confined to
+		// zero-channel buffers alarms C20 only
+		for _, v := range ct.BaseExcludes {
 			st.Assume(Not(u.evalSpecBool(env, v.Expr)))
 		}
 	}
